@@ -100,7 +100,7 @@ func refWeights(ts []tgt) []float64 {
 }
 
 func TestC04Weights(t *testing.T) {
-	hx.Check(t, hx.Scale(3000, 100000), func(t *rapid.T) {
+	hx.Check(t, hx.Scale(8000, 100000), func(t *rapid.T) {
 		n := rapid.IntRange(1, 40).Draw(t, "ntargets")
 		if rapid.IntRange(0, 2).Draw(t, "small") > 0 {
 			n = rapid.IntRange(1, 6).Draw(t, "nsmall")
